@@ -4,12 +4,22 @@ From RV Require Import Base.Wire Base.Text Lang.PyAst Lang.PySem Lang.CAst Lang.
 Import ListNotations.
 Open Scope Z_scope.
 
+(* an operator that _emit_binop prints infix: the C++ operator computes Python's value inside op_guard *)
 Theorem C01_binop_table op tok :
-  In (op, tok) OpTables.bin ->
+  In (op, (0, tok)) OpTables.binemit ->
   forall a b wa wb v, vrel a wa -> vrel b wb -> op_guard op a b = true ->
   py_bin op a b = Ok v -> vfits v = true -> exists w, csem_bin tok wa wb = COk w /\ vrel v w.
 Proof. exact (binop_table_sound op tok). Qed.
 Print Assumptions C01_binop_table.
+
+(* an operator that _emit_binop prints as a helper call (// and %): the helper template computes Python's value *)
+Theorem C01_binop_helper_table op f :
+  In (op, (1, f)) OpTables.binemit ->
+  forall a b wa wb v, vrel a wa -> vrel b wb -> op_guard op a b = true ->
+  py_bin op a b = Ok v -> vfits v = true ->
+  exists md w, helper_name f = Some md /\ csem_helper md wa wb = COk w /\ vrel v w.
+Proof. exact (binop_helper_sound op f). Qed.
+Print Assumptions C01_binop_helper_table.
 
 Theorem C01_unop_table op tok :
   In (op, tok) OpTables.un ->
@@ -25,46 +35,93 @@ Theorem C01_cmpop_table op tok :
 Proof. exact (cmpop_table_sound op tok). Qed.
 Print Assumptions C01_cmpop_table.
 
-Theorem C01_tables_understood :
-  forallb bin_pair_ok OpTables.bin && forallb un_pair_ok OpTables.un && forallb cmp_pair_ok OpTables.cmp = true.
+(* the regenerated tables: every operator of _BIN is emitted in the form the C++ semantics needs - infix with the C++
+   operator of the same meaning, // and % as calls of __redu_floordiv / __redu_mod whose snippet emit() adds, ** rejected *)
+Theorem C01_tables_understood : tables_ok = true.
 Proof. exact generated_tables_ok. Qed.
 Print Assumptions C01_tables_understood.
 
-Theorem C01_floordiv_refuted : exists a b : Z, b <> 0 /\
-  py_of (EBin FloorDiv (EInt a) (EInt b)) = Ok (VInt (-4)) /\
-  c_of (EBin FloorDiv (EInt a) (EInt b)) [] = Some (COk (CInt (-3), [])).
-Proof. exact floordiv_refuted. Qed.
-Print Assumptions C01_floordiv_refuted.
+(* ---- repaired defects F-C01-floordiv, F-C01-mod-sign, F-C01-mod-float: positive theorems that replace
+   C01_floordiv_refuted, C01_floordiv_float_refuted, C01_mod_refuted, C01_mod_float_refuted ---- *)
 
-Theorem C01_floordiv_float_refuted : exists q : Q,
-  py_of (EBin FloorDiv (EFloat q) (EInt 2)) = Ok (VFloat (-1 # 1)) /\
-  c_of (EBin FloorDiv (EFloat q) (EInt 2)) [] = Some (COk (CFloat (-7 # 8), [])).
-Proof. exact floordiv_float_refuted. Qed.
-Print Assumptions C01_floordiv_float_refuted.
+(* the C++ text of the integer helper templates computes Python's floor division and modulo, for every divisor but 0 *)
+Theorem C01_floordiv_helper_floors : forall x y, y <> 0 -> c_floordiv x y = Z.div x y.
+Proof. exact c_floordiv_div. Qed.
+Print Assumptions C01_floordiv_helper_floors.
 
-Theorem C01_mod_refuted : exists a b : Z, b <> 0 /\
-  py_of (EBin Mod (EInt a) (EInt b)) = Ok (VInt 2) /\
-  c_of (EBin Mod (EInt a) (EInt b)) [] = Some (COk (CInt (-1), [])).
-Proof. exact mod_refuted. Qed.
-Print Assumptions C01_mod_refuted.
+Theorem C01_mod_helper_sign_of_divisor : forall x y, y <> 0 -> c_mod x y = Z.modulo x y.
+Proof. exact c_mod_mod. Qed.
+Print Assumptions C01_mod_helper_sign_of_divisor.
 
-Theorem C01_mod_float_refuted : exists q : Q,
-  py_of (EBin Mod (EFloat q) (EInt 2)) = Ok (VFloat (7 # 4)) /\
-  c_of (EBin Mod (EFloat q) (EInt 2)) [] = Some CStuck.
-Proof. exact mod_float_refuted. Qed.
-Print Assumptions C01_mod_float_refuted.
+(* value level, all numeric operands (int, bool, float in any mix, any signs): the device computes what Python computes *)
+Theorem C01_floordiv_preserved : forall a b wa wb v,
+  vrel a wa -> vrel b wb -> is_numv a && is_numv b = true -> py_bin FloorDiv a b = Ok v -> vfits v = true ->
+  exists w, csem_helper false wa wb = COk w /\ vrel v w /\ arith_ty (tag_of wa) (tag_of wb) = Some (tag_of w).
+Proof. intros a b wa wb v Ha Hb Hn. exact (helper_num_sound FloorDiv false a b wa wb v eq_refl Ha Hb Hn). Qed.
+Print Assumptions C01_floordiv_preserved.
+
+Theorem C01_mod_preserved : forall a b wa wb v,
+  vrel a wa -> vrel b wb -> is_numv a && is_numv b = true -> py_bin Mod a b = Ok v -> vfits v = true ->
+  exists w, csem_helper true wa wb = COk w /\ vrel v w /\ arith_ty (tag_of wa) (tag_of wb) = Some (tag_of w).
+Proof. intros a b wa wb v Ha Hb Hn. exact (helper_num_sound Mod true a b wa wb v eq_refl Ha Hb Hn). Qed.
+Print Assumptions C01_mod_preserved.
+
+(* closed expressions through the real tables: for all ints a, b (b <> 0, 32-bit) the emitted a // b and a % b
+   evaluate on the device to Python's value *)
+Theorem C01_floordiv_closed : forall a b : Z,
+  fits a = true -> fits b = true -> b <> 0 -> fits (a / b) = true ->
+  py_of (EBin FloorDiv (EInt a) (EInt b)) = Ok (VInt (a / b)) /\
+  c_of (EBin FloorDiv (EInt a) (EInt b)) [] = Some (COk (CInt (a / b), [])).
+Proof. exact floordiv_closed. Qed.
+Print Assumptions C01_floordiv_closed.
+
+Theorem C01_mod_closed : forall a b : Z,
+  fits a = true -> fits b = true -> b <> 0 ->
+  py_of (EBin Mod (EInt a) (EInt b)) = Ok (VInt (a mod b)) /\
+  c_of (EBin Mod (EInt a) (EInt b)) [] = Some (COk (CInt (a mod b), [])).
+Proof. exact mod_closed. Qed.
+Print Assumptions C01_mod_closed.
+
+(* the witnesses of the former findings *)
+Example C01_floordiv_witness :
+  py_of (EBin FloorDiv (EInt (-7)) (EInt 2)) = Ok (VInt (-4)) /\
+  c_of (EBin FloorDiv (EInt (-7)) (EInt 2)) [] = Some (COk (CInt (-4), [])).
+Proof. exact floordiv_witness. Qed.
+Print Assumptions C01_floordiv_witness.
+
+Example C01_floordiv_float_witness :
+  py_of (EBin FloorDiv (EFloat (-7 # 4)) (EInt 2)) = Ok (VFloat (-1 # 1)) /\
+  c_of (EBin FloorDiv (EFloat (-7 # 4)) (EInt 2)) [] = Some (COk (CFloat (-1 # 1), [])).
+Proof. exact floordiv_float_witness. Qed.
+Print Assumptions C01_floordiv_float_witness.
+
+Example C01_mod_witness :
+  py_of (EBin Mod (EInt (-7)) (EInt 3)) = Ok (VInt 2) /\
+  c_of (EBin Mod (EInt (-7)) (EInt 3)) [] = Some (COk (CInt 2, [])).
+Proof. exact mod_witness. Qed.
+Print Assumptions C01_mod_witness.
+
+Example C01_mod_float_witness :
+  py_of (EBin Mod (EFloat (7 # 4)) (EInt 2)) = Ok (VFloat (7 # 4)) /\
+  c_of (EBin Mod (EFloat (7 # 4)) (EInt 2)) [] = Some (COk (CFloat (7 # 4), [])).
+Proof. exact mod_float_witness. Qed.
+Print Assumptions C01_mod_float_witness.
+
+(* ---- repaired defect F-C01-pow: replaces C01_pow_refuted (accepted, C++ does not compile) ---- *)
+Theorem C01_pow_never_emitted : forall G a b c, to_c G (EBin Pow a b) <> TOk c.
+Proof. exact pow_rejected. Qed.
+Print Assumptions C01_pow_never_emitted.
+
+Example C01_pow_witness :
+  py_of (EBin Pow (EInt 7) (EInt 2)) = Ok (VInt 49) /\ to_c G0 (EBin Pow (EInt 7) (EInt 2)) = Rejected.
+Proof. exact pow_witness. Qed.
+Print Assumptions C01_pow_witness.
 
 Theorem C01_truediv_refuted : exists a b : Z, b <> 0 /\
   py_of (EBin Div (EInt a) (EInt b)) = Ok (VFloat (7 # 2)) /\
   c_of (EBin Div (EInt a) (EInt b)) [] = Some (COk (CInt 3, [])).
 Proof. exact truediv_refuted. Qed.
 Print Assumptions C01_truediv_refuted.
-
-Theorem C01_pow_refuted : exists a b : Z,
-  py_of (EBin Pow (EInt a) (EInt b)) = Ok (VInt 49) /\
-  c_of (EBin Pow (EInt a) (EInt b)) [] = Some CStuck.
-Proof. exact pow_refuted. Qed.
-Print Assumptions C01_pow_refuted.
 
 Theorem C01_shift_range_refuted : exists a b : Z,
   py_of (EBin RShift (EInt a) (EInt b)) = Ok (VInt 0) /\
